@@ -32,7 +32,9 @@ COMPONENTS = {'real': ['analysis/tsc.py kernels as cooperative generators (all s
               'stub': ['numba thread pool and scheduler in the simulated runs']}
 ASSUMPTIONS = ['rounding bound per cell: 6*eps(dtype)*(n+2)*(sum of |w| of the particles whose cloud touches the cell) '
                '+ 4*eps*|initial cell value|; calibrated at 10x the largest observed rounding error',
-               'cell i is centred at i*h (the convention fixed by the repository test_single)']
+               'cell i is centred at i*h (the convention fixed by the repository test_single)',
+               'offsets are sub-cell in magnitude, of either sign; negative offsets are generated only for grids whose axes '
+               'all have at least 2 cells']
 
 
 def _f(dtype):
@@ -49,11 +51,17 @@ def gen(rng, tier):
     box = rng.choice([1.0, 1.0, 2000.0, 123.456, 32.0])
     wrap = rng.random() < 0.4 and kind == 'tsc'
     if kind == 'tsc':
-        offset_cls = rng.choice(['0', 'half', 'rand', 'cell'])
+        offset_cls = rng.choice(['0', 'half', 'rand', 'cell', 'neg-rand', 'neg-most'])
+        if min(shape) < 2 and offset_cls.startswith('neg'):
+            offset_cls = 'rand'      # negative offsets only on grids without a one-cell axis (see ASSUMPTIONS)
     else:
         offset_cls = rng.choice(['0', 'half'])
-    h0 = box / shape[0]
-    offset = {'0': 0.0, 'half': 0.5 * h0, 'rand': rng.random() * h0, 'cell': h0}[offset_cls]
+    h0 = box / max(shape)            # sub-cell with respect to every axis
+    offset = {'0': 0.0, 'half': 0.5 * h0, 'rand': rng.random() * h0, 'cell': h0, 'neg-rand': -rng.random() * h0,
+              'neg-most': -rng.uniform(0.55, 0.99) * h0}[offset_cls]
+    if offset_cls in ('0', 'half', 'rand', 'cell') and kind == 'tsc' and rng.random() < 0.5:
+        h0 = box / shape[0]
+        offset = {'0': 0.0, 'half': 0.5 * h0, 'rand': rng.random() * h0, 'cell': h0}[offset_cls]
     top = float(np.nextafter(ft(box), ft(0)))
     N = rng.choice([0, 1, 2, 5, rng.randrange(0, 40)])
     pos, classes = [], set()
@@ -70,8 +78,8 @@ def gen(rng, tier):
             elif r < 0.8:
                 v = (rng.randrange(shape[ax]) + 0.5) * h
                 classes.add('half-cell-edge')
-            elif r < 0.86:
-                v = 0.0
+            elif r < 0.86 or (offset < 0 and r < 0.9):
+                v = 0.0 if rng.random() < 0.5 else rng.random() * abs(offset)
                 classes.add('zero')
             elif r < 0.93:
                 v = top
